@@ -133,17 +133,19 @@ class RepeatedNodeWrapper(MutableSequence[_M]):
             values: Iterable[base.RawModel],
             length: Optional[int] = None,
             separators_before_last: Optional[base.RawTokenModel] = None,
+            detached: Optional[list[list[base.RawTokenModel]]] = None,
     ) -> None:
         tokens: list[base.RawTokenModel] = []
         ref = self._prev_last(index)
         if length is None:
             length = len(self._repeated.items)
         for i, value in enumerate(values):
+            value_tokens = detached[i] if detached is not None else value.detach()
             if index or (i and not length):
                 tokens.extend(copy.deepcopy(self._separators))
-                tokens.extend(value.detach())
+                tokens.extend(value_tokens)
             elif length:
-                tokens.extend(value.detach())
+                tokens.extend(value_tokens)
                 tokens.extend(copy.deepcopy(self._separators))
                 if separators_before_last is None:
                     separators_before_last = self._repeated.token_store.get_prev(
@@ -152,7 +154,7 @@ class RepeatedNodeWrapper(MutableSequence[_M]):
                 ref = separators_before_last
             else:
                 tokens.extend(copy.deepcopy(self._separators_before))
-                tokens.extend(value.detach())
+                tokens.extend(value_tokens)
         self._repeated.token_store.insert_after(ref, tokens)
 
     def _prev_last(self, index: int) -> base.RawTokenModel:
@@ -202,9 +204,11 @@ class RepeatedNodeWrapper(MutableSequence[_M]):
             self._repeated.token_store.get_prev(self._repeated.items[0].first_token)
             if self._repeated.items else None)
         if r.step == 1:
+            # Detach first: a value that cannot be reused must be refused before anything is deleted.
+            detached = [value.detach() for value in values]
             self._del_tokens(r.start, r.stop)
             self._insert_tokens(
-                r.start, values, len(self._repeated.items) - len(r), separators_before_last)
+                r.start, values, len(self._repeated.items) - len(r), separators_before_last, detached)
             self._repeated.items[indexes.slice_from_range(r)] = values
             for value in values:
                 value.reattach(self._repeated.token_store)
@@ -212,9 +216,11 @@ class RepeatedNodeWrapper(MutableSequence[_M]):
         else:
             if len(r) != len(values):
                 raise ValueError(f'attempt to assign sequence of size {len(values)} to extended slice of size {len(r)}')
-            for i, value in zip(r, values):
+            detached = [value.detach() for value in values]
+            for i, value, value_tokens in zip(r, values, detached):
                 self._del_tokens(i, i + 1)
-                self._insert_tokens(i, [value], len(self._repeated.items) - 1, separators_before_last)
+                self._insert_tokens(
+                    i, [value], len(self._repeated.items) - 1, separators_before_last, [value_tokens])
                 value.reattach(self._repeated.token_store)
                 self._repeated.items[i] = value
             self._notify()
